@@ -89,10 +89,16 @@ Definition at_pcv (pc : Z) (r : provider) : cstate :=
   {| c_out := repeat 0%N (Z.to_nat pc); c_bp := []; c_stack := [r]; c_next := 0; c_reuse := []; c_consts := []; c_last := None |}.
 Lemma cur_off_at_pcv pc r : 0 <= pc -> cur_off (at_pcv pc r) = pc.
 Proof. intros H. unfold cur_off, at_pcv. cbn. rewrite repeat_length. lia. Qed.
+(** at the function's own label only the result (register 0), globals and memory matter: local 0 has
+    been overwritten by the result *)
+Definition wrel (pc : Z) (st : store) (v : val) (M : mstate) : Prop :=
+  ms_idx M = fidx /\ ms_pc M = pc /\ Forall2 repr (ms_globals M) (s_globals st) /\ mem_rel art cap (ms_mem M) (s_mem st)
+  /\ repr (reg M 0) v.
 Definition arrive (e : Z * Z * option provider) (st : store) (l vs : list val) (M : mstate) : Prop :=
   match snd e with
   | None => rel (at_pc (fst (fst e))) st l [] M
-  | Some r => exists v vs0, vs = v :: vs0 /\ rel (at_pcv (fst (fst e)) r) st l [v] M
+  | Some (PDyn d) => exists v vs0, vs = v :: vs0 /\ rel (at_pcv (fst (fst e)) (PDyn d)) st l [v] M
+  | Some _ => exists v vs0, vs = v :: vs0 /\ wrel (fst (fst e)) st v M
   end.
 
 Definition sim_res (rho : list (Z * Z * option provider)) (M : mstate) (s1 : cstate) (r : res) : Prop :=
@@ -101,9 +107,13 @@ Definition sim_res (rho : list (Z * Z * option provider)) (M : mstate) (s1 : cst
   | RBr k st' l' vs' => exists e n M', nth_error rho k = Some e /\ 0 <= fst (fst e) /\ nsteps n M = SNext M'
                                      /\ arrive e st' l' vs' M' /\ frame_eq M M'
   | RTrap => exists n e, nsteps n M = STrap e
-  | RReturn st' _ => exists n M', nsteps n M = SNext M' /\ frame_eq M M' /\ ms_idx M' = fidx
+  | RReturn st' vs' => exists n M', nsteps n M = SNext M' /\ frame_eq M M' /\ ms_idx M' = fidx
                                 /\ code_at c (ms_pc M') [IReturn]
                                 /\ Forall2 repr (ms_globals M') (s_globals st') /\ mem_rel art cap (ms_mem M') (s_mem st')
+                                /\ match cx_return cx with
+                                   | Some _ => exists v vs0, vs' = v :: vs0 /\ repr (reg M' 0) v
+                                   | None => True
+                                   end
   | _ => True
   end.
 
@@ -431,8 +441,11 @@ Proof.
     intros j Hj. apply (no_new_pending s s1); auto; [apply (i_bp _ _ _ I)|lia]. }
   cbn. exists O, M. split; [reflexivity|]. split; [apply frame_eq_refl|]. split; [apply (r_idx _ _ _ _ _ _ _ _ _ _ _ R)|].
   split; [rewrite (r_pc _ _ _ _ _ _ _ _ _ _ _ R); exact Hc|].
-  split; [apply (r_globals _ _ _ _ _ _ _ _ _ _ _ R)|apply (r_mem _ _ _ _ _ _ _ _ _ _ _ R)].
+  split; [apply (r_globals _ _ _ _ _ _ _ _ _ _ _ R)|]. split; [apply (r_mem _ _ _ _ _ _ _ _ _ _ _ R)|].
+  rewrite Hret. exact Logic.I.
 Qed.
+
+
 
 (** ** moving a value into the reserved result register of a frame *)
 Lemma sim_copy s p d rest st l v vs M :
@@ -481,6 +494,40 @@ Proof.
   rewrite <- Nat2Z.inj_add, byte_F by lia. rewrite (Hm (base + j)%nat ltac:(lia) Np), E. reflexivity.
 Qed.
 
+Lemma sim_copy_ret s p rest st l v vs M :
+  rel s st l (v :: vs) M -> c_stack s = p :: rest -> pwf nl s p -> cwf nl s -> small NR s -> 0 < NR ->
+  code_at c (cur_off s) (copy_ret p) ->
+  exists k M1, nsteps k M = SNext M1 /\ frame_eq M M1 /\ wrel (cur_off s + Z.of_nat (length (copy_ret p))) st v M1.
+Proof.
+  intros R Es Pp W Sm HNR Hc.
+  pose proof (r_stack _ _ _ _ _ _ _ _ _ _ _ R) as Hst. rewrite Es in Hst.
+  assert (Hp : repr (denote consts M p) v) by (inversion Hst; auto). clear Hst.
+  unfold copy_ret in *. destruct (provider_eqb p (PLocal 0)) eqn:Eq.
+  - apply provider_eqb_eq in Eq. subst p. exists O, M. split; [reflexivity|]. split; [apply frame_eq_refl|].
+    cbn [length]. repeat split.
+    + apply (r_idx _ _ _ _ _ _ _ _ _ _ _ R).
+    + rewrite (r_pc _ _ _ _ _ _ _ _ _ _ _ R). lia.
+    + apply (r_globals _ _ _ _ _ _ _ _ _ _ _ R).
+    + apply (r_mem _ _ _ _ _ _ _ _ _ _ _ R).
+    + exact Hp.
+  - pose proof (pwf_idx s p Sm W Pp) as Hidx.
+    assert (Hdi : idx_ok 0) by (unfold idx_ok; lia).
+    pose proof (mstep_copy art mhost codes fidx c consts Hcode M (provider_idx p) 0 (r_idx _ _ _ _ _ _ _ _ _ _ _ R)) as Hstep.
+    rewrite (r_pc _ _ _ _ _ _ _ _ _ _ _ R) in Hstep. specialize (Hstep Hc Hidx Hdi).
+    change (get_local consts M (provider_idx p)) with (denote consts M p) in Hstep.
+    set (x := denote consts M p) in *. set (pc' := cur_off s + 9) in *.
+    exists 1%nat, (set_pc (set_reg M 0 x) pc'). split; [cbn; rewrite Hstep; reflexivity|].
+    split; [apply (frame_eq_write _ _ _ _ _ (mupd_refl M))|].
+    assert (Hr : 0 <= 0 < NR) by lia.
+    pose proof (reg_in_range _ _ _ _ _ _ _ _ _ _ _ 0 R Hr) as Hrange.
+    unfold wrel. cbn [set_pc set_reg ms_idx ms_pc ms_globals ms_mem].
+    split; [apply (r_idx _ _ _ _ _ _ _ _ _ _ _ R)|].
+    split; [cbn [length]; rewrite app_length, !i32_bytes_length; cbn; unfold pc'; lia|].
+    split; [apply (r_globals _ _ _ _ _ _ _ _ _ _ _ R)|]. split; [apply (r_mem _ _ _ _ _ _ _ _ _ _ _ R)|].
+    change (reg (set_pc (set_reg M 0 x) pc') 0) with (get_local consts (set_pc (set_reg M 0 x) pc') 0).
+    rewrite get_local_set_pc, get_local_set_reg by (auto; lia). exact Hp.
+Qed.
+
 Lemma sim_br_val k locs d s v v1 s1 rho st l vs M :
   inv nl s v -> v_unreach v = None -> nth_error (c_bp s) k = Some (JUnknown locs (Some (PDyn d))) ->
   vstep cx v (OBasic (BBr k)) = Some v1 ->
@@ -523,6 +570,72 @@ Proof.
     eapply rel_pc; [exact R1|apply (r_stack _ _ _ _ _ _ _ _ _ _ _ R1)|apply cur_off_at_pcv; exact H0].
 Qed.
 
+Lemma sim_br_ret k locs s v v1 s1 rho st l vs M :
+  inv nl s v -> v_unreach v = None -> nth_error (c_bp s) k = Some (JUnknown locs (Some (PLocal 0))) ->
+  vstep cx v (OBasic (BBr k)) = Some v1 ->
+  handle_opcode cx s v1 Reachable (OBasic (BBr k)) = Some s1 ->
+  matches F s1 -> lenv s1 rho -> lows rho s -> small NR s1 -> rel s st l vs M ->
+  sim_res rho M s1 (RBr k st l vs).
+Proof.
+  intros I Hu Enth Ev Eh Hm Hle Hlo Sm R.
+  destruct (op_br_ret nl cx s v v1 s1 k locs I Hu Enth Ev Eh) as (p & rest & Es & Pp & O1 & O2 & O3 & O4 & O5 & O6 & I1 & Hu1 & X1).
+  assert (HNR : 0 < NR).
+  { destruct (br_target _ _ _ _ Ev) as (fk & Ek). destruct (target_label_any _ _ _ _ k fk locs (PLocal 0) (i_frames _ _ _ I) Ek Enth) as (t0 & _ & [[_ H0]|(d0 & E0 & _)]); [|discriminate E0]. destruct Sm as [Sn _]. rewrite O4 in Sn. lia. }
+  set (tc := copy_ret p) in *. set (x := cur_off s + Z.of_nat (length tc) + 1) in *.
+  assert (Hpend : forall q, (length (c_out s) <= q)%nat -> ~ in_win x q -> ~ pending s1 q).
+  { intros q Hq Hw. apply (pres_pending_new s s1 x); auto; [apply (i_bp _ _ _ I)|].
+    intros y Hy. rewrite O2 in Hy. eapply update_locs_in; eauto. }
+  destruct vs as [|v0 vs0]; [pose proof (r_stack _ _ _ _ _ _ _ _ _ _ _ R) as Hst; rewrite Es in Hst; inversion Hst|].
+  assert (Sm0 : small NR s) by (eapply small_of_mono; [exact Sm|apply mono_eq; auto]).
+  assert (Hc1 : code_at c (cur_off s) tc).
+  { apply (code_from_F s1 (c_out s) tc (IBr :: u32_bytes 0) Hm O1). intros j Hj. apply Hpend; [lia|unfold in_win, x, cur_off; lia]. }
+  destruct (sim_copy_ret s p rest st l v0 vs0 M R Es Pp (i_cwf _ _ _ I) Sm0 HNR Hc1) as (k1 & M1 & Hn1 & Fq1 & Hw1).
+  pose proof Hw1 as (Hidx1 & Hpc1 & _).
+  assert (Hc2 : code_at c (ms_pc M1) [IBr]).
+  { rewrite Hpc1. fold tc. assert (E : c_out s1 = (c_out s ++ tc) ++ [IBr] ++ u32_bytes 0) by (rewrite O1, <- app_assoc; reflexivity).
+    pose proof (code_from_F s1 _ _ _ Hm E) as Hx. rewrite app_length in Hx.
+    replace (cur_off s + Z.of_nat (length tc)) with (Z.of_nat (length (c_out s) + length tc)) by (unfold cur_off; lia). apply Hx.
+    intros j Hj. cbn in Hj. apply Hpend; [lia|unfold in_win, x, cur_off; lia]. }
+  assert (Enth1 : nth_error (c_bp s1) k = Some (JUnknown (locs ++ [x]) (Some (PLocal 0)))).
+  { rewrite O2. eapply nth_error_update_nth; eauto. }
+  destruct (lenv_nth s1 rho k _ _ Hle Enth1) as (e & Ee & Er & He).
+  destruct (lows_nth _ _ _ _ Hlo Ee) as [Hlo_e _].
+  assert (Ht : get_u32 c (ms_pc M1 + 1) = fst (fst e)).
+  { rewrite Hpc1. fold tc. replace (cur_off s + Z.of_nat (length tc) + 1) with x by reflexivity.
+    apply He; [apply in_or_app; right; left; reflexivity|unfold x; lia]. }
+  assert (H0 : 0 <= fst (fst e)) by (rewrite <- Ht; apply get_u32_nonneg).
+  cbn. exists e, (k1 + 1)%nat, (set_pc M1 (fst (fst e))).
+  split; [exact Ee|]. split; [exact H0|]. split.
+  - rewrite (nsteps_app _ _ _ _ _ _ _ Hn1). cbn. rewrite (mstep_br2 M1 Hidx1 Hc2), Ht. reflexivity.
+  - split; [|exact Fq1].
+    unfold arrive. rewrite Er. exists v0, vs0. split; [reflexivity|].
+    destruct Hw1 as (W1 & W2 & W3 & W4 & W5). repeat split; auto.
+Qed.
+
+Lemma sim_return_val t t' s v v1 s1 rho st l vs M :
+  inv nl s v -> v_unreach v = None -> cx_return cx = Some t' ->
+  last (map (fun f => Some (vf_label f)) (v_ctrls v)) None = Some (Some t) ->
+  vstep cx v (OBasic BReturn) = Some v1 ->
+  handle_opcode cx s v1 Reachable (OBasic BReturn) = Some s1 ->
+  matches F s1 -> small NR s1 -> rel s st l vs M -> sim_res rho M s1 (RReturn st vs).
+Proof.
+  intros I Hu Hret Hne Ev Eh Hm Sm R.
+  destruct (op_return_val nl cx s v v1 s1 t t' I Hu Hret Hne Ev Eh) as (p & rest & Es & Pp & Hpos & O1 & O2 & O3 & O4 & O5 & O6 & I1 & Hu1 & X1).
+  destruct vs as [|v0 vs0]; [pose proof (r_stack _ _ _ _ _ _ _ _ _ _ _ R) as Hst; rewrite Es in Hst; inversion Hst|].
+  assert (Sm0 : small NR s) by (eapply small_of_mono; [exact Sm|apply mono_eq; auto]).
+  assert (HNR : 0 < NR) by (destruct Sm0 as [Sn _]; lia).
+  assert (Hc1 : code_at c (cur_off s) (copy_ret p)).
+  { apply (code_from_F s1 (c_out s) (copy_ret p) [IReturn] Hm O1). intros j Hj. apply (no_new_pending s s1); auto; [apply (i_bp _ _ _ I)|lia]. }
+  destruct (sim_copy_ret s p rest st l v0 vs0 M R Es Pp (i_cwf _ _ _ I) Sm0 HNR Hc1) as (k1 & M1 & Hn1 & Fq1 & W1 & W2 & W3 & W4 & W5).
+  assert (Hc2 : code_at c (ms_pc M1) [IReturn]).
+  { rewrite W2. assert (E : c_out s1 = (c_out s ++ copy_ret p) ++ [IReturn] ++ []) by (rewrite O1, app_nil_r, <- app_assoc; reflexivity).
+    pose proof (code_from_F s1 _ _ _ Hm E) as Hx. rewrite app_length in Hx.
+    replace (cur_off s + Z.of_nat (length (copy_ret p))) with (Z.of_nat (length (c_out s) + length (copy_ret p))) by (unfold cur_off; lia).
+    apply Hx. intros j Hj. apply (no_new_pending s s1); auto; [apply (i_bp _ _ _ I)|lia]. }
+  cbn. exists k1, M1. split; [exact Hn1|]. split; [exact Fq1|]. split; [exact W1|]. split; [exact Hc2|].
+  split; [exact W3|]. split; [exact W4|]. rewrite Hret. exists v0, vs0. auto.
+Qed.
+
 (** ** composing a block body with what follows the block *)
 Definition blk (r : res) : res :=
   match r with
@@ -552,6 +665,25 @@ Proof.
     + cbn in Ee. cbn [sim_res]. exists e, n, M1. auto.
 Qed.
 
+(** a sequence whose last instruction is br / unreachable / return never finishes normally *)
+Lemma no_normal_term b : is_term b = true -> forall pre fuel st l vs st' l' vs',
+  exec_seq fuel st l vs (pre ++ [Basic b]) = RNormal st' l' vs' -> False.
+Proof.
+  intros Hb. induction pre as [|i pre IH]; intros fuel st l vs st' l' vs' H.
+  - destruct fuel as [|f]; [discriminate|]. cbn [app] in H. rewrite E_cons in H.
+    destruct f as [|f2]; [discriminate|].
+    destruct b; try discriminate Hb; [rewrite E_unreachable in H|rewrite E_br in H|rewrite E_return in H]; discriminate.
+  - destruct fuel as [|f]; [discriminate|]. cbn [app] in H. rewrite E_cons in H.
+    destruct (exec_instr f st l vs i) as [s1 l1 vs1| | | | |]; try discriminate. eapply IH; eauto.
+Qed.
+Lemma term_no_normal is s v v' s' fuel st l vs st' l' vs' :
+  compile_ops cx (flatten is) v s = Some (v', s') -> lvl nl cx (flatten is) v = true -> v_unreach v = None ->
+  v_unreach v' <> None -> exec_seq fuel st l vs is = RNormal st' l' vs' -> False.
+Proof.
+  intros Hc Hl Hu Hu' H. destruct (term_last nl cx is v s v' s' Hc Hl Hu Hu') as (pre & b & -> & Hb).
+  eapply no_normal_term; eauto.
+Qed.
+
 Definition blkv (t : valtype) (r : res) : res :=
   match r with
   | RNormal s1 l1 vs1 => RNormal s1 l1 (firstn (arity (Some t)) vs1 ++ [])
@@ -560,17 +692,17 @@ Definition blkv (t : valtype) (r : res) : res :=
   | r => r
   end.
 
-Lemma sim_after_body_val f t rho T lo r sb sk s' M rb rest :
-  sim_res ((T, lo, Some r) :: rho) M sb rb ->
-  c_stack sk = [r] -> cur_off sk = T ->
-  (forall st1 l1 vs1 M1, rel sb st1 l1 vs1 M1 ->
+Lemma sim_after_body_val f t rho T lo d sb sk s' M rb rest :
+  sim_res ((T, lo, Some (PDyn d)) :: rho) M sb rb ->
+  c_stack sk = [PDyn d] -> cur_off sk = T ->
+  (forall st1 l1 vs1 M1, rb = RNormal st1 l1 vs1 -> rel sb st1 l1 vs1 M1 ->
      exists v, vs1 = [v] /\ exists n M2, nsteps n M1 = SNext M2 /\ frame_eq M1 M2 /\ rel sk st1 l1 [v] M2) ->
   (forall st1 l1 v M1, rel sk st1 l1 [v] M1 -> sim_res rho M1 s' (exec_seq f st1 l1 [v] rest)) ->
   sim_res rho M s' (match blkv t rb with RNormal s1 l1 st1 => exec_seq f s1 l1 st1 rest | r => r end).
 Proof.
   intros Hb Esk Ecur Hbridge Hrest. destruct rb as [st1 l1 vs1|k st1 l1 vs1| | | |]; cbn [blkv sim_res] in *; auto.
   - destruct Hb as (n & M1 & Hn & R1 & Fq).
-    destruct (Hbridge _ _ _ _ R1) as (v & -> & n2 & M2 & Hn2 & Fq2 & R2). cbn [arity firstn app].
+    destruct (Hbridge _ _ _ _ eq_refl R1) as (v & -> & n2 & M2 & Hn2 & Fq2 & R2). cbn [arity firstn app].
     eapply sim_res_compose; [exact Hn|exact Fq|]. eapply sim_res_compose; [exact Hn2|exact Fq2|]. apply Hrest. exact R2.
   - destruct Hb as (e & n & M1 & Ee & H0 & Hn & R1 & Fq). destruct k as [|k].
     + cbn in Ee. inversion Ee; subst e. unfold arrive in R1. cbn [fst snd] in *.
@@ -612,12 +744,44 @@ Proof.
     unfold cur_off. rewrite A1, app_length. cbn [length]. rewrite app_length, i32_bytes_length, u32_bytes_length. lia.
 Qed.
 
-Lemma pres_of is s v v' s' :
+Lemma sim_if_val t s v va sa st l x vs M :
+  inv nl s v -> v_unreach v = None -> v_opds v = 1%nat -> vstep cx v (OIf (Some t)) = Some va ->
+  handle_opcode cx s va Reachable (OIf (Some t)) = Some sa ->
+  matches F sa -> small NR sa -> rel s st l (x :: vs) M ->
+  vs = [] /\
+  forall cv, x = VI32 cv ->
+  exists M1, nsteps 1 M = SNext M1 /\ frame_eq M M1 /\
+    if cv =? 0 then forall s2, c_stack s2 = [] -> cur_off s2 = get_u32 c (cur_off s + 5) -> rel s2 st l [] M1
+    else rel sa st l [] M1.
+Proof.
+  intros I Hu H1 Ev Eh Hm Sm R.
+  destruct (op_if_val nl cx s v va sa t I Hu H1 Ev Eh) as (p & d & Es & Pp & Hd & A1 & A2 & A3 & Ma & A6 & Ia & Hua & Xa).
+  pose proof (r_stack _ _ _ _ _ _ _ _ _ _ _ R) as Hst. rewrite Es in Hst. inversion Hst as [|? ? ? ? Hp Hrest]; subst.
+  inversion Hrest; subst. split; [reflexivity|]. intros cv ->.
+  assert (Hc : code_at c (cur_off s) (IIf :: i32_bytes (provider_idx p))).
+  { apply (code_from_F sa (c_out s) (IIf :: i32_bytes (provider_idx p)) (u32_bytes 0) Hm).
+    - rewrite A1. reflexivity.
+    - intros j Hj. cbn [length] in Hj. rewrite i32_bytes_length in Hj.
+      apply (pres_pending_new s sa (cur_off s + 5)); [apply (i_bp _ _ _ I)| |lia|unfold in_win, cur_off; lia].
+      intros y Hy. rewrite A2 in Hy. cbn in Hy. destruct Hy; auto. }
+  assert (Sm0 : small NR s) by (eapply small_of_mono; [exact Sm|exact Ma]).
+  pose proof (pwf_idx s p Sm0 (i_cwf _ _ _ I) Pp) as Hidx.
+  pose proof (mstep_if2 M (provider_idx p) (r_idx _ _ _ _ _ _ _ _ _ _ _ R)) as Hstep.
+  rewrite (r_pc _ _ _ _ _ _ _ _ _ _ _ R) in Hstep. specialize (Hstep Hc Hidx).
+  change (get_local consts M (provider_idx p)) with (denote consts M p) in Hstep. rewrite (cond_repr _ _ Hp) in Hstep.
+  eexists. split; [cbn; rewrite Hstep; reflexivity|]. split; [apply frame_eq_set_pc|].
+  destruct (cv =? 0).
+  - intros s2 E2 Ec2. eapply rel_jump; [exact R|exact E2|exact Ec2].
+  - eapply rel_jump; [exact R|exact A3|].
+    unfold cur_off. rewrite A1, app_length. cbn [length]. rewrite app_length, i32_bytes_length, u32_bytes_length. lia.
+Qed.
+
+Lemma pres_of is s v v' s' : syn is = true ->
   compile_ops cx (flatten is) v s = Some (v', s') -> lvl nl cx (flatten is) v = true ->
   inv nl s v -> v_unreach v = None -> ready s is -> pres nl s s' v'.
-Proof. apply (pure_seq nl cx (lsize is) is (le_n _)). Qed.
+Proof. intros Hs. apply (pure_seq nl cx (lsize is) is (le_n _) Hs). Qed.
 
-Definition SIM (fuel : nat) : Prop := forall is s v v' s' rho st l vs M,
+Definition SIM (fuel : nat) : Prop := forall is s v v' s' rho st l vs M, syn is = true ->
   compile_ops cx (flatten is) v s = Some (v', s') -> lvl nl cx (flatten is) v = true ->
   inv nl s v -> v_unreach v = None -> ready s is ->
   matches F s' -> lenv s' rho -> lows rho s -> small NR s' -> consts_ok consts s' ->
@@ -658,7 +822,7 @@ Variable n : nat.
 Hypothesis Hsim : forall f', (f' <= n)%nat -> SIM f'.
 
 Lemma case_block f body rest s v v' s' rho st l vs M :
-  (f <= n)%nat ->
+  (f <= n)%nat -> syn (Block None body :: rest) = true ->
   compile_ops cx (flatten (Block None body :: rest)) v s = Some (v', s') ->
   lvl nl cx (flatten (Block None body :: rest)) v = true ->
   inv nl s v -> v_unreach v = None ->
@@ -667,7 +831,8 @@ Lemma case_block f body rest s v v' s' rho st l vs M :
   sim_res rho M s' (match exec_instr f st l vs (Block None body) with
                     | RNormal s1 l1 st1 => exec_seq f s1 l1 st1 rest | r => r end).
 Proof.
-  intros Hf Hc Hl I Hu Hm Hle Hlo Sm Co R.
+  intros Hf Hs Hc Hl I Hu Hm Hle Hlo Sm Co R.
+  destruct (syn_cons _ _ Hs) as [Hsb Hsr]. rewrite syn_block in Hsb.
   rewrite flatten_block in Hc, Hl.
   destruct (compile_cons _ _ _ _ _ _ _ Hc) as (va & sa & Ev & Eh & Hc').
   rewrite (reach_of_none v Hu) in Eh. destruct (lvl_cons _ _ _ _ _ _ Hl Ev) as [Hk Hl'].
@@ -718,7 +883,7 @@ Proof.
 Qed.
 
 Lemma case_block_val f t body rest s v v' s' rho st l vs M :
-  (f <= n)%nat ->
+  (f <= n)%nat -> syn (Block (Some t) body :: rest) = true ->
   compile_ops cx (flatten (Block (Some t) body :: rest)) v s = Some (v', s') ->
   lvl nl cx (flatten (Block (Some t) body :: rest)) v = true ->
   inv nl s v -> v_unreach v = None ->
@@ -727,7 +892,8 @@ Lemma case_block_val f t body rest s v v' s' rho st l vs M :
   sim_res rho M s' (match exec_instr f st l vs (Block (Some t) body) with
                     | RNormal s1 l1 st1 => exec_seq f s1 l1 st1 rest | r => r end).
 Proof.
-  intros Hf Hc Hl I Hu Hm Hle Hlo Sm Co R.
+  intros Hf Hs Hc Hl I Hu Hm Hle Hlo Sm Co R.
+  destruct (syn_cons _ _ Hs) as [Hsb Hsr]. rewrite syn_block in Hsb.
   rewrite flatten_block in Hc, Hl.
   destruct (compile_cons _ _ _ _ _ _ _ Hc) as (va & sa & Ev & Eh & Hc').
   rewrite (reach_of_none v Hu) in Eh. destruct (lvl_cons _ _ _ _ _ _ Hl Ev) as [Hk Hl'].
@@ -742,13 +908,6 @@ Proof.
   destruct (op_end_val nl cx sb vb vc sc _ d b'' (p_inv _ _ _ _ Pb) Ebp Evc Ehc)
     as (tc & E2 & E3 & E5 & E6 & E7 & X3 & Ecur & Rs & Hnth & Ic & Huc & Hd' & Hcase).
   assert (Pr : pres nl sc s' v') by (eapply (pres_of rest); eauto; left; exact E7).
-  (* the end of a value-typed block is reachable *)
-  destruct Hcase as [(Hub & p & Esb & Pp & Etc)|(Hub & _)].
-  2:{ exfalso. unfold ctl_ok in Hke. pose proof (i_frames _ _ _ (p_inv _ _ _ _ Pb)) as Frb.
-      destruct (v_ctrls vb) as [|fb rb'] eqn:Ecb; [inversion Frb; subst; rewrite Ebp in *; discriminate|].
-      destruct (target_label_some _ _ _ _ O fb _ _ Frb eq_refl ltac:(rewrite Ebp; reflexivity)) as (t0 & d0 & Fl & _).
-      destruct (frames_cons _ _ _ _ _ Frb) as (_ & Fe & _). rewrite Fl in Fe. rewrite Fe in Hke.
-      destruct (v_unreach vb); [discriminate|contradiction]. }
   assert (Es : c_stack s = []) by (destruct (c_stack s) eqn:E; [reflexivity|pose proof (i_len _ _ _ I) as L; rewrite E, Hk in L; discriminate]).
   pose proof (rel_nil_stack _ _ _ _ _ R Es) as Evs. subst vs.
   destruct f as [|f2]; [cbn; exact Logic.I|]. rewrite E_block.
@@ -769,7 +928,7 @@ Proof.
   assert (Oa : cur_off sa = cur_off s) by (unfold cur_off; rewrite A1; reflexivity).
   assert (Ob : cur_off sa <= cur_off sb) by (apply ext_off; apply (p_ext _ _ _ _ Pb)).
   assert (Sb : small NR sb) by (eapply small_of_mono; [exact Sm|exact Mob]).
-  eapply (sim_after_body_val (S f2) t rho (cur_off sc) 0 (PDyn d) sb sc s').
+  eapply (sim_after_body_val (S f2) t rho (cur_off sc) 0 d sb sc s').
   - eapply (Hsim f2 ltac:(lia) body sa va vb sb); eauto.
     + left. exact A7.
     + apply (lows_cons _ _ _ _ s); auto; try lia. unfold cur_off. lia.
@@ -777,7 +936,8 @@ Proof.
     + eapply rel_transfer; [exact R|rewrite A3; reflexivity|exact Oa].
   - exact E3.
   - reflexivity.
-  - intros st1 l1 vs1 M1 R1.
+  - intros st1 l1 vs1 M1 Erb R1.
+    destruct Hcase as [(Hub & p & Esb & Pp & Etc)|(Hub & _)]; [|exfalso; eapply (term_no_normal body sa va vb sb); eauto].
     pose proof (r_stack _ _ _ _ _ _ _ _ _ _ _ R1) as Hst. rewrite Esb in Hst.
     inversion Hst as [|? v1 ? vs1' Hp1 Hr1]; subst. inversion Hr1; subst. clear Hst Hr1.
     exists v1. split; [reflexivity|].
@@ -797,8 +957,144 @@ Proof.
   intros H. destruct (bp_sub_head_u _ _ _ _ H) as (add & E). inversion E; subst. exists add. reflexivity.
 Qed.
 
+Lemma case_if_val f t thn e els rest s v v' s' rho st l vs M :
+  (f <= n)%nat -> syn (If (Some t) thn (e :: els) :: rest) = true ->
+  compile_ops cx (flatten (If (Some t) thn (e :: els) :: rest)) v s = Some (v', s') ->
+  lvl nl cx (flatten (If (Some t) thn (e :: els) :: rest)) v = true ->
+  inv nl s v -> v_unreach v = None ->
+  matches F s' -> lenv s' rho -> lows rho s -> small NR s' -> consts_ok consts s' ->
+  rel s st l vs M ->
+  sim_res rho M s' (match exec_instr f st l vs (If (Some t) thn (e :: els)) with
+                    | RNormal s1 l1 st1 => exec_seq f s1 l1 st1 rest | r => r end).
+Proof.
+  intros Hf Hs Hc Hl I Hu Hm Hle Hlo Sm Co R.
+  destruct (syn_cons _ _ Hs) as [Hsi Hsr]. rewrite syn_if in Hsi. apply andb_true_iff in Hsi. destruct Hsi as [Hsyt Hsye].
+  rewrite flatten_if2 in Hc, Hl.
+  destruct (compile_cons _ _ _ _ _ _ _ Hc) as (va & sa & Ev & Eh & Hc').
+  rewrite (reach_of_none v Hu) in Eh. destruct (lvl_cons _ _ _ _ _ _ Hl Ev) as [Hk Hl'].
+  unfold ctl_ok in Hk. rewrite Hu in Hk. apply Nat.eqb_eq in Hk.
+  destruct (op_if_val nl cx s v va sa t I Hu Hk Ev Eh) as (p & d & Es & Pp & Hd & A1 & A2 & A3 & Ma0 & A6 & Ia & Hua & Xa).
+  destruct (compile_app_inv _ _ _ _ _ _ _ Hc') as (vb & sb & Hcb & Hc'').
+  rewrite (lvl_app nl cx _ _ _ _ _ _ Hcb) in Hl'. apply andb_true_iff in Hl'. destruct Hl' as [Hlb Hl''].
+  assert (Pb : pres nl sa sb vb) by (eapply (pres_of thn); eauto; left; exact A6).
+  destruct (compile_cons _ _ _ _ _ _ _ Hc'') as (vc & sc & Evc & Ehc & Hcr).
+  destruct (lvl_cons _ _ _ _ _ _ Hl'' Evc) as [Hke Hlr].
+  pose proof (p_bp _ _ _ _ Pb) as Hb0. rewrite A2 in Hb0. destruct (bp_sub_head_val _ _ _ _ Hb0) as (add & b'' & Ebp & Hb').
+  pose proof (val_top_reachable nl cx sb vb _ _ _ OElse (p_inv _ _ _ _ Pb) Ebp eq_refl Hke) as Hub.
+  rewrite (reach_of_none vb Hub) in Ehc.
+  destruct (op_else_val nl cx sb vb vc sc _ d b'' (p_inv _ _ _ _ Pb) Hub Ebp Evc Ehc)
+    as (first & more & p2 & El & Esb & Pp2 & Hd2 & E2 & Hnth & E5 & E6n & E6c & E8 & Ecur & X3 & Rs & Ic & Huc).
+  cbn [app] in El. inversion El; subst first add. clear El.
+  destruct (compile_app_inv _ _ _ _ _ _ _ Hcr) as (vd & sd & Hcd & Hcr').
+  rewrite (lvl_app nl cx _ _ _ _ _ _ Hcd) in Hlr. apply andb_true_iff in Hlr. destruct Hlr as [Hld Hlr'].
+  assert (Pd : pres nl sc sd vd) by (eapply (pres_of (e :: els)); eauto; left; exact E8).
+  destruct (compile_cons _ _ _ _ _ _ _ Hcr') as (ve & se & Eve & Ehe & Hcr'').
+  destruct (lvl_cons _ _ _ _ _ _ Hlr' Eve) as [Hke2 Hlr''].
+  pose proof (p_bp _ _ _ _ Pd) as Hd0. rewrite E2 in Hd0. destruct (bp_sub_head_val _ _ _ _ Hd0) as (add2 & b3 & Ebp2 & Hb2).
+  destruct (op_end_val nl cx sd vd ve se _ d b3 (p_inv _ _ _ _ Pd) Ebp2 Eve Ehe)
+    as (tc & G2 & G3 & G5 & G6 & G7 & X5 & Gcur & Rs' & Gnth & Ie & Hue & Hd3 & Hcase).
+  assert (Pr : pres nl se s' v') by (eapply (pres_of rest); eauto; left; exact G7).
+  set (tc2 := copy_bytes p2 d) in *. set (x := cur_off sb + Z.of_nat (length tc2) + 1) in *.
+  assert (Me : matches F se) by (eapply matches_ext; [apply (p_ext _ _ _ _ Pr)|exact Hm]).
+  assert (Md : matches F sd) by (eapply matches_ext; [exact X5|exact Me]).
+  assert (Mc : matches F sc) by (eapply matches_ext; [apply (p_ext _ _ _ _ Pd)|exact Md]).
+  assert (Mb : matches F sb) by (eapply matches_ext; [exact X3|exact Mc]).
+  assert (Ma : matches F sa) by (eapply matches_ext; [apply (p_ext _ _ _ _ Pb)|exact Mb]).
+  assert (Moe : mono se s') by apply (p_mono _ _ _ _ Pr).
+  assert (Mod : mono sd s') by (eapply mono_trans; [apply (mono_eq sd se); auto|exact Moe]).
+  assert (Moc : mono sc s') by (eapply mono_trans; [apply (p_mono _ _ _ _ Pd)|exact Mod]).
+  assert (Mob : mono sb s') by (eapply mono_trans; [apply (mono_eq sb sc); auto|exact Moc]).
+  assert (Moa : mono sa s') by (eapply mono_trans; [apply (p_mono _ _ _ _ Pb)|exact Mob]).
+  assert (Le : lenv se rho) by (eapply lenv_sub; [reflexivity|apply (p_bp _ _ _ _ Pr)|exact Hle]).
+  assert (HT : 0 <= cur_off se < 4294967296) by (apply T_range; exact Me).
+  assert (Ld : lenv sd ((cur_off se, 0, Some (PDyn d)) :: rho)).
+  { unfold lenv. rewrite Ebp2. constructor; [|unfold lenv in Le; rewrite G2 in Le; exact Le].
+    left. eexists. split; [reflexivity|]. intros loc Hin _. cbn [fst].
+    apply (target_from_F se loc (cur_off se) (Rs' loc Hin) Me HT). }
+  assert (Lc : lenv sc ((cur_off se, 0, Some (PDyn d)) :: rho)) by (eapply lenv_sub; [reflexivity|apply (p_bp _ _ _ _ Pd)|exact Ld]).
+  assert (Oa : cur_off s <= cur_off sa) by (apply ext_off; exact Xa).
+  assert (Oa9 : cur_off sa = cur_off s + 9).
+  { unfold cur_off. rewrite A1, app_length. cbn [length]. rewrite app_length, i32_bytes_length, u32_bytes_length. lia. }
+  assert (Ob : cur_off sa <= cur_off sb) by (apply ext_off; apply (p_ext _ _ _ _ Pb)).
+  assert (Od : cur_off sc <= cur_off sd) by (apply ext_off; apply (p_ext _ _ _ _ Pd)).
+  assert (Sa : small NR sa) by (eapply small_of_mono; eauto).
+  assert (Sb : small NR sb) by (eapply small_of_mono; [exact Sm|exact Mob]).
+  assert (Sd : small NR sd) by (eapply small_of_mono; [exact Sm|exact Mod]).
+  pose proof Lc as Lc'. unfold lenv in Lc'. rewrite E2 in Lc'. inversion Lc' as [|? ? ? ? He Htl]; subst. pose proof (lenv1_u _ _ _ He) as Hl2. clear Lc'.
+  cbn [fst snd] in Hl2.
+  assert (Lb : lenv sb ((cur_off se, cur_off sa, Some (PDyn d)) :: rho)).
+  { unfold lenv. rewrite Ebp. constructor; [|exact Htl]. left. eexists. split; [reflexivity|]. cbn [fst snd]. intros loc Hin Hge.
+    apply Hl2; [|unfold cur_off in *; lia]. cbn [app] in Hin. destruct Hin as [<-|Hin]; [lia|apply in_or_app; left; exact Hin]. }
+  destruct vs as [|x0 vs]; [pose proof (r_stack _ _ _ _ _ _ _ _ _ _ _ R) as Hst; rewrite Es in Hst; inversion Hst|].
+  destruct (sim_if_val t s v va sa st l x0 vs M I Hu Hk Ev Eh Ma Sa R) as [-> Hstep].
+  destruct f as [|f2]; [cbn; exact Logic.I|].
+  destruct x0 as [cv|cv]; [|cbn; exact Logic.I].
+  rewrite E_if. destruct f2 as [|f3]; [cbn; exact Logic.I|]. rewrite E_block.
+  destruct (Hstep cv eq_refl) as (M1 & Hn1 & Fq1 & Hcasev).
+  eapply sim_res_compose; [exact Hn1|exact Fq1|].
+  match goal with |- sim_res _ _ _ ?rr =>
+    replace rr with (match blkv t (exec_seq f3 st l [] (if cv =? 0 then e :: els else thn)) with
+                    | RNormal s1 l1 st1 => exec_seq (S (S f3)) s1 l1 st1 rest | r0 => r0 end)
+      by (destruct (exec_seq f3 st l [] (if cv =? 0 then e :: els else thn)) as [? ? ?|[|?] ? ? ?| | | |]; reflexivity) end.
+  assert (Hrest : forall st1 l1 v1 M2, rel se st1 l1 [v1] M2 -> sim_res rho M2 s' (exec_seq (S (S f3)) st1 l1 [v1] rest)).
+  { intros st1 l1 v1 M2 R2. eapply (Hsim (S (S f3)) Hf rest se ve v' s'); eauto.
+    - left. exact G7.
+    - eapply lows_mono; [exact Hlo|]. lia. }
+  destruct (cv =? 0).
+  - (* else branch *)
+    assert (Rc : rel sc st l [] M1).
+    { apply Hcasev; [exact E5|].
+      rewrite (target_from_F sc (cur_off s + 5) (cur_off sc) Rs Mc); [reflexivity|]. apply T_range. exact Mc. }
+    eapply (sim_after_body_val (S (S f3)) t rho (cur_off se) 0 d sd se s').
+    + eapply (Hsim f3 ltac:(lia) (e :: els) sc vc vd sd); eauto.
+      * left. exact E8.
+      * apply (lows_cons _ _ _ _ s); auto; try lia. unfold cur_off. lia.
+      * eapply consts_ok_of_mono; [exact Co|exact Mod].
+    + exact G3.
+    + reflexivity.
+    + intros st1 l1 vs1 M2 Erb R2.
+      destruct Hcase as [(_ & p3 & Esd & Pp3 & Etc)|(Hud' & _)]; [|exfalso; eapply (term_no_normal (e :: els) sc vc vd sd); eauto]. subst tc.
+      pose proof (r_stack _ _ _ _ _ _ _ _ _ _ _ R2) as Hst. rewrite Esd in Hst.
+      inversion Hst as [|? v1 ? vs1' Hp1 Hr1]; subst. inversion Hr1; subst. clear Hst Hr1.
+      exists v1. split; [reflexivity|].
+      assert (Hcc : code_at c (cur_off sd) (copy_bytes p3 d)).
+      { unfold cur_off. apply (code_from_F2 se (length (c_out sd)) (copy_bytes p3 d) Me); [|exact Gnth].
+        unfold cur_off in Gcur. lia. }
+      destruct (sim_copy sd p3 d [] st1 l1 v1 [] M2 R2 Esd Pp3 (i_cwf _ _ _ (p_inv _ _ _ _ Pd)) Sd Hd3 Hcc) as (k1 & M3 & Hn3 & Fq3 & Hpc3 & Hbld).
+      exists k1, M3. split; [exact Hn3|]. split; [exact Fq3|]. apply Hbld; [exact G3|]. rewrite Hpc3, Gcur. reflexivity.
+    + exact Hrest.
+  - (* then branch: move the result, jump over the else branch *)
+    eapply (sim_after_body_val (S (S f3)) t rho (cur_off se) (cur_off sa) d sb se s').
+    + eapply (Hsim f3 ltac:(lia) thn sa va vb sb); eauto.
+      * left. exact A6.
+      * apply (lows_cons _ _ _ _ s); auto; lia.
+      * eapply consts_ok_of_mono; [exact Co|exact Mob].
+    + exact G3.
+    + reflexivity.
+    + intros st1 l1 vs1 M2 Erb R2.
+      pose proof (r_stack _ _ _ _ _ _ _ _ _ _ _ R2) as Hst. rewrite Esb in Hst.
+      inversion Hst as [|? v1 ? vs1' Hp1 Hr1]; subst. inversion Hr1; subst. clear Hst Hr1.
+      exists v1. split; [reflexivity|].
+      assert (Hcall : code_at c (cur_off sb) (tc2 ++ [IBr])).
+      { unfold cur_off. apply (code_from_F2 sc (length (c_out sb)) (tc2 ++ [IBr]) Mc); [|exact Hnth].
+        rewrite app_length. cbn [length]. unfold cur_off in Ecur. fold tc2 in Ecur. lia. }
+      apply code_at_app in Hcall. destruct Hcall as [Hc1 Hc2].
+      destruct (sim_copy sb p2 d [] st1 l1 v1 [] M2 R2 Esb Pp2 (i_cwf _ _ _ (p_inv _ _ _ _ Pb)) Sb Hd2 Hc1) as (k1 & M3 & Hn3 & Fq3 & Hpc3 & Hbld).
+      fold tc2 in Hpc3.
+      assert (Hidx3 : ms_idx M3 = fidx) by (destruct Fq3 as (E & _); rewrite E; apply (r_idx _ _ _ _ _ _ _ _ _ _ _ R2)).
+      rewrite <- Hpc3 in Hc2.
+      assert (Htgt : get_u32 c (ms_pc M3 + 1) = cur_off se).
+      { rewrite Hpc3. apply Hl2; [apply in_or_app; right; left; reflexivity|unfold cur_off; lia]. }
+      assert (Hpc0 : 0 <= ms_pc M3) by (rewrite Hpc3; unfold cur_off; lia).
+      pose proof (Hbld (at_pcv (ms_pc M3) (PDyn d)) eq_refl (cur_off_at_pcv _ _ Hpc0)) as R3.
+      exists (k1 + 1)%nat, (set_pc M3 (cur_off se)). split.
+      * rewrite (nsteps_app _ _ _ _ _ _ _ Hn3). cbn. rewrite (mstep_br2 M3 Hidx3 Hc2), Htgt. reflexivity.
+      * split; [exact Fq3|]. eapply rel_pc; [exact R3|rewrite G3; apply (r_stack _ _ _ _ _ _ _ _ _ _ _ R3)|reflexivity].
+    + exact Hrest.
+Qed.
+
 Lemma case_if f bt thn els rest s v v' s' rho st l vs M :
-  (f <= n)%nat ->
+  (f <= n)%nat -> syn (If bt thn els :: rest) = true ->
   compile_ops cx (flatten (If bt thn els :: rest)) v s = Some (v', s') ->
   lvl nl cx (flatten (If bt thn els :: rest)) v = true ->
   inv nl s v -> v_unreach v = None ->
@@ -807,7 +1103,11 @@ Lemma case_if f bt thn els rest s v v' s' rho st l vs M :
   sim_res rho M s' (match exec_instr f st l vs (If bt thn els) with
                     | RNormal s1 l1 st1 => exec_seq f s1 l1 st1 rest | r => r end).
 Proof.
-  intros Hf Hc Hl I Hu Hm Hle Hlo Sm Co R.
+  intros Hf Hs Hc Hl I Hu Hm Hle Hlo Sm Co R.
+  destruct (syn_cons _ _ Hs) as [Hsi Hsr]. rewrite syn_if in Hsi.
+  assert (Hsi' : syn thn = true /\ syn els = true).
+  { destruct bt, els; try discriminate Hsi; apply andb_true_iff in Hsi; exact Hsi. }
+  destruct Hsi' as [Hsyt Hsye].
   destruct els as [|e els].
   - (* one-armed *)
     rewrite flatten_if1 in Hc, Hl.
@@ -871,10 +1171,11 @@ Proof.
         eapply rel_transfer; [exact R2|rewrite E3, E4; reflexivity|exact E8].
       * exact Hrest.
   - (* two-armed *)
+    destruct bt as [t|]; [eapply (case_if_val f t thn e els rest s v v' s'); eauto|].
     rewrite flatten_if2 in Hc, Hl.
     destruct (compile_cons _ _ _ _ _ _ _ Hc) as (va & sa & Ev & Eh & Hc').
     rewrite (reach_of_none v Hu) in Eh. destruct (lvl_cons _ _ _ _ _ _ Hl Ev) as [Hk Hl'].
-    destruct bt; [discriminate|]. unfold ctl_ok in Hk. rewrite Hu in Hk. apply Nat.eqb_eq in Hk.
+    unfold ctl_ok in Hk. rewrite Hu in Hk. apply Nat.eqb_eq in Hk.
     destruct (op_if nl cx s v va sa I Hu Hk Ev Eh) as (p & Es & Pp & A1 & A2 & A3 & A4 & A5 & A6 & Ia & Hua & Xa).
     destruct (compile_app_inv _ _ _ _ _ _ _ Hc') as (vb & sb & Hcb & Hc'').
     rewrite (lvl_app nl cx _ _ _ _ _ _ Hcb) in Hl'. apply andb_true_iff in Hl'. destruct Hl' as [Hlb Hl''].
@@ -986,7 +1287,7 @@ Lemma bp_sub_head_k pos bp0 j bp1 : bp_sub (JKnown pos :: bp0) (j :: bp1) -> j =
 Proof. intros H. inversion H as [|? ? ? ? [(l0 & add & r0 & E1 & E2)|(p0 & E1 & E2)]]; subst; [discriminate E1|]. inversion E1; subst. reflexivity. Qed.
 
 Lemma case_loop f bt body rest s v v' s' rho st l vs M :
-  (f <= n)%nat ->
+  (f <= n)%nat -> syn (Loop bt body :: rest) = true ->
   compile_ops cx (flatten (Loop bt body :: rest)) v s = Some (v', s') ->
   lvl nl cx (flatten (Loop bt body :: rest)) v = true ->
   inv nl s v -> v_unreach v = None ->
@@ -995,7 +1296,8 @@ Lemma case_loop f bt body rest s v v' s' rho st l vs M :
   sim_res rho M s' (match exec_instr f st l vs (Loop bt body) with
                     | RNormal s1 l1 st1 => exec_seq f s1 l1 st1 rest | r => r end).
 Proof.
-  intros Hf Hc Hl I Hu Hm Hle Hlo Sm Co R.
+  intros Hf Hs Hc Hl I Hu Hm Hle Hlo Sm Co R.
+  destruct (syn_cons _ _ Hs) as [Hsb Hsr]. rewrite syn_loop in Hsb.
   rewrite flatten_loop in Hc, Hl.
   destruct (compile_cons _ _ _ _ _ _ _ Hc) as (va & sa & Ev & Eh & Hc').
   rewrite (reach_of_none v Hu) in Eh. destruct (lvl_cons _ _ _ _ _ _ Hl Ev) as [Hk Hl'].
@@ -1071,16 +1373,16 @@ Lemma sim_all : forall n fuel, (fuel <= n)%nat -> SIM fuel.
 Proof.
   induction n as [|n IH]; intros fuel Hf.
   { destruct fuel; [|lia]. unfold SIM. intros. cbn. exact Logic.I. }
-  assert (CF : forall fuel', (fuel' <= S n)%nat -> forall is s v v' s' rho st l vs M, ctl_first is ->
+  assert (CF : forall fuel', (fuel' <= S n)%nat -> forall is s v v' s' rho st l vs M, ctl_first is -> syn is = true ->
             compile_ops cx (flatten is) v s = Some (v', s') -> lvl nl cx (flatten is) v = true ->
             inv nl s v -> v_unreach v = None ->
             matches F s' -> lenv s' rho -> lows rho s -> small NR s' -> consts_ok consts s' ->
             rel s st l vs M -> sim_res rho M s' (exec_seq fuel' st l vs is)).
-  { intros fuel' Hf' is s v v' s' rho st l vs M Hcf Hc Hl I Hu Hm Hle Hlo Sm Co R.
+  { intros fuel' Hf' is s v v' s' rho st l vs M Hcf Hs Hc Hl I Hu Hm Hle Hlo Sm Co R.
     destruct fuel' as [|f]; [cbn; exact Logic.I|].
     destruct is as [|i rest].
     - rewrite E_nil. cbn in Hc. inversion Hc; subst. cbn. exists O, M. split; [reflexivity|]. split; [exact R|apply frame_eq_refl].
-    - rewrite E_cons. destruct i as [b|bt body|bt body|bt thn els].
+    - destruct (syn_cons _ _ Hs) as [Hsi Hsr]. rewrite E_cons. destruct i as [b|bt body|bt body|bt thn els].
       + cbn in Hcf. change (flatten (Basic b :: rest)) with (OBasic b :: flatten rest) in Hc, Hl.
         destruct (compile_cons _ _ _ _ _ _ _ Hc) as (v1 & s1 & Ev & Eh & Hc').
         rewrite (reach_of_none v Hu) in Eh. destruct (lvl_cons _ _ _ _ _ _ Hl Ev) as [Hk Hl'].
@@ -1092,7 +1394,11 @@ Proof.
           exact (sim_unreachable s v v1 s1 rho st l vs M I Hu Ev Eh Hm R).
         * (* br *)
           destruct (br_target _ _ _ _ Ev) as (fk & Ek). destruct (bp_target nl s v l0 fk I Ek) as [(locs & [rr|] & Enth)|(pos & Enth)].
-          -- destruct (target_label_some _ _ _ _ l0 fk locs rr (i_frames _ _ _ I) Ek Enth) as (t0 & d & _ & -> & _).
+          -- destruct (target_label_any _ _ _ _ l0 fk locs rr (i_frames _ _ _ I) Ek Enth) as (t0 & _ & [[-> _]|(d & -> & _)]).
+             { destruct (op_br_ret nl cx s v v1 s1 l0 locs I Hu Enth Ev Eh) as (p & st0 & Es & Pp & O1 & O2 & O3 & O4 & O5 & O6 & I1 & Hu1 & X1).
+               rewrite (lvl_unreach_nil nl cx rest v1 Hu1 Hl') in Hc'. cbn in Hc'. inversion Hc'; subst v' s'.
+               destruct f as [|f2]; [cbn; exact Logic.I|]. rewrite E_br.
+               exact (sim_br_ret l0 locs s v v1 s1 rho st l vs M I Hu Enth Ev Eh Hm Hle Hlo Sm R). }
              destruct (op_br_val nl cx s v v1 s1 l0 locs d I Hu Enth Ev Eh) as (p & st0 & Es & Pp & Hd & O1 & O2 & O3 & O4 & O5 & O6 & I1 & Hu1 & X1).
              rewrite (lvl_unreach_nil nl cx rest v1 Hu1 Hl') in Hc'. cbn in Hc'. inversion Hc'; subst v' s'.
              destruct f as [|f2]; [cbn; exact Logic.I|]. rewrite E_br.
@@ -1112,7 +1418,7 @@ Proof.
                      if cv =? 0 then rel s1 st l vs0 Mx
                      else exists e, nth_error rho l0 = Some e /\ 0 <= fst (fst e) /\ arrive e st l vs0 Mx).
           { destruct (br_if_target _ _ _ _ Ev) as (fk & Ek). destruct (bp_target nl s v l0 fk I Ek) as [(locs & [rr|] & Enth)|(pos & Enth)].
-            - exfalso. destruct (target_label_some _ _ _ _ l0 fk locs rr (i_frames _ _ _ I) Ek Enth) as (t0 & d & Fl & _).
+            - exfalso. destruct (target_label_any _ _ _ _ l0 fk locs rr (i_frames _ _ _ I) Ek Enth) as (t0 & Fl & _).
               unfold ctl_ok in Hk. rewrite Hu in Hk. unfold label_type in Hk. rewrite Ek, Fl in Hk. discriminate.
             - destruct (op_br_if nl cx s v v1 s1 l0 locs I Hu Enth Ev Eh) as (p & st0 & Es & Pp & O1 & O2 & O3 & O4 & O5 & O6 & I1 & Hu1 & X1).
               exists p, st0. splits; auto. intros cv vs0 -> Hm1 Hl1 Hs1.
@@ -1135,7 +1441,12 @@ Proof.
              ++ eapply lows_mono; [exact Hlo|apply ext_off; exact X1].
           -- destruct Hcase as (e & Ee & H0 & Re). cbn. exists e, 1%nat, Mx. auto.
         * (* return *)
-          unfold ctl_ok in Hk. rewrite Hu in Hk. destruct (cx_return cx) eqn:Hret; [discriminate|].
+          unfold ctl_ok in Hk. rewrite Hu in Hk. destruct (cx_return cx) as [t'|] eqn:Hret.
+          { destruct (last (map (fun f => Some (vf_label f)) (v_ctrls v)) None) as [[t0|]|] eqn:Hne; try discriminate.
+            destruct (op_return_val nl cx s v v1 s1 t0 t' I Hu Hret Hne Ev Eh) as (p & st0 & Es & Pp & Hpos & O1 & O2 & O3 & O4 & O5 & O6 & I1 & Hu1 & X1).
+            rewrite (lvl_unreach_nil nl cx rest v1 Hu1 Hl') in Hc'. cbn in Hc'. inversion Hc'; subst v' s'.
+            destruct f as [|f2]; [cbn; exact Logic.I|]. rewrite E_return.
+            exact (sim_return_val t0 t' s v v1 s1 rho st l vs M I Hu Hret Hne Ev Eh Hm Sm R). }
           assert (Hne : last (map (fun f => Some (vf_label f)) (v_ctrls v)) None = Some None).
           { destruct (last (map (fun f => Some (vf_label f)) (v_ctrls v)) None) as [[?|]|]; try discriminate. reflexivity. }
           destruct (op_return nl cx s v v1 s1 I Hu Hret Hne Ev Eh) as (O1 & O2 & O3 & O4 & O5 & O6 & I1 & Hu1 & X1).
@@ -1147,13 +1458,13 @@ Proof.
         * eapply (case_block n IH f body rest s v v' s'); eauto; lia.
       + eapply (case_loop n IH f bt body rest s v v' s'); eauto; lia.
       + eapply (case_if n IH f bt thn els rest s v v' s'); eauto; lia. }
-  unfold SIM. intros is s v v' s' rho st l vs M Hc Hl I Hu Hr Hm Hle Hlo Sm Co R.
+  unfold SIM. intros is s v v' s' rho st l vs M Hs Hc Hl I Hu Hr Hm Hle Hlo Sm Co R.
   destruct (span is) as [bs tl] eqn:Esp. destruct (span_spec _ _ _ Esp) as (Eis & Hok & Hcf).
   destruct bs as [|b0 bs0].
   { cbn in Eis. subst is. apply (CF fuel Hf tl s v v' s'); auto. }
   assert (Hlast : c_last s = None).
   { destruct Hr as [H|H]; auto. rewrite Eis in H. cbn in H. cbn [forallb] in Hok. rewrite H in Hok. discriminate. }
-  set (bs := b0 :: bs0) in *. rewrite Eis in Hc, Hl |- *. rewrite flatten_app, flatten_basics in Hc, Hl.
+  set (bs := b0 :: bs0) in *. rewrite Eis in Hc, Hl, Hs |- *. rewrite syn_app in Hs. apply andb_true_iff in Hs. destruct Hs as [_ Hst]. rewrite flatten_app, flatten_basics in Hc, Hl.
   destruct (compile_app_inv _ _ _ _ _ _ _ Hc) as (v1 & s1 & Hc1 & Hc2).
   rewrite (lvl_app nl cx _ _ _ _ _ _ Hc1) in Hl. apply andb_true_iff in Hl. destruct Hl as [Hl1 Hl2].
   destruct (seg_facts bs s v v1 s1 ltac:(discriminate) Hok Hc1 Hl1 I Hu Hlast) as (I1 & Hu1 & Ebp & Mo & t & Eo).
